@@ -381,7 +381,7 @@ def _numeric_rows(v):
         and len({len(x) for x in v}) == 1
 
 
-def vary_arguments(mk: Maker, f, args):
+def vary_arguments(mk: Maker, f, args, force_malformed=False):
     """General input classes on top of what the factories build (feature names returned):
     sequence-form:*   every list / tuple argument also as a tuple, a list, ONE ndarray (rows of numbers -> 2-d table, arrays
                       of one shape -> stacked), or a list of 1-d arrays — the spellings NumPy-style code accepts alike;
@@ -432,7 +432,7 @@ def vary_arguments(mk: Maker, f, args):
             if k in defaults and rng.random() < 0.6:
                 del args[k]
                 feats.add("defaults-used")
-    if rng.random() < 0.12:  # one argument of the right type but the wrong shape / dtype / length: most such calls raise half-way
+    if rng.random() < 0.12 or force_malformed:  # one argument of the right type but the wrong shape / dtype / length: most such calls raise half-way
         cands = [k for k, v in args.items() if k not in ("self", "cls") and (len(v) > 0 if isinstance(v, (list, dict)) else isinstance(v, np.ndarray) and v.ndim > 0 and v.shape[0] > 0)]
         if cands:
             k = rng.choice(sorted(cands))
@@ -1185,6 +1185,10 @@ class C19(Prop):
         for name in sorted({k[0] for k in UNPROVED_STATIC} & set(self.funcs())):
             for a in range(1, 25 if tier == "quick" else 150):
                 yield {"func": name, "aseed": a}
+        # "whether it returns or raises": for every function a call (thorough: 8) with one argument of the wrong shape / dtype / length
+        for name in sorted(self.funcs()):
+            for a in (1,) if tier == "quick" else range(1, 9):
+                yield {"func": name, "aseed": a, "malformed": True}
         # every two-call history `construct; member` run for real (mutators and setters with more argument seeds)
         for prod, h in sorted(self.history_index().items()):
             for m, kind in zip(h["members"], h["kinds"]):
@@ -1350,7 +1354,7 @@ class C19(Prop):
                 raise core.InternalError(str(e))
             args = self.paths(name, args, mk, tmp)
             if case["aseed"] != 0:
-                feats |= vary_arguments(mk, f, args)
+                feats |= vary_arguments(mk, f, args, force_malformed=bool(case.get("malformed")))
             if case.get("overlap"):
                 overlaps = self.make_overlap(f, args, mk)
             wrong = self.check_annotations(f, args)
@@ -1398,6 +1402,15 @@ class C19(Prop):
             if edited:
                 feats.add("result-edit-reaches-argument")
             aliased += [k for k in edited if k not in aliased]
+            # RECORDED ONLY (no verdict: not an alias of an input): does an equal second call hand out (part of) the same
+            # object again — a cache or a module-level table returned by reference?
+            if case["aseed"] != 0 and kind == "function" and rng.random() < 0.3 and not mk.handles:
+                try:
+                    again = self.invoke(name, kind, copy.deepcopy(args))
+                    if again is not None and not inspect.isgenerator(again) and observe.shares(result, again):
+                        feats.add("recorded-only:equal-calls-share-their-result:" + name.split("pewlib.")[-1])
+                except Exception:
+                    pass
         # a documented mutator may change its argument in any way; an object-state setter only the attribute bindings of
         # its receiver, never an array / list / dict that was reachable from any argument when the call started
         bad_changed = sorted({p for p in changed if not dyn_write_allowed(name, p)}
@@ -1433,7 +1446,8 @@ class C19(Prop):
             note = f"obligation broken: analysis reports may-write {bad_w} / may-alias {bad_r} for {name}"
         model["unpredicted"] = unpredicted
         return outcome(impl, model, spec, spec_ok=(not bad_changed and not bad_aliased), model_ok=model_ok,
-                       features=feats if "has-mutable-arg" in feats else [], note=note)
+                       features=feats if ("has-mutable-arg" in feats or any(x.startswith("recorded-only") for x in feats)) else [],
+                       note=note)
 
     # ------------------------------------------------------------------ call histories on one object (dynamic)
     MUTATING_MEMBERS = ("add", "remove", "rename")
